@@ -58,6 +58,32 @@ impl Config {
 
         add_project(root_project_dir.clone(), &mut projects)?;
 
+        // A project name identifies its targets (`project::target`): two loaded projects
+        // sharing a name would make those identifiers ambiguous.
+        let mut project_dirs_by_name: HashMap<&str, Vec<&PathBuf>> = HashMap::new();
+        for (project_dir, project) in &projects {
+            if let Some(project_name) = &project.name {
+                project_dirs_by_name
+                    .entry(project_name)
+                    .or_default()
+                    .push(project_dir);
+            }
+        }
+        let mut duplicates = project_dirs_by_name
+            .into_iter()
+            .filter(|(_name, dirs)| dirs.len() > 1)
+            .collect::<Vec<_>>();
+        duplicates.sort();
+        if let Some((project_name, dirs)) = duplicates.into_iter().next() {
+            let mut dirs = dirs;
+            dirs.sort();
+            return Err(anyhow!(
+                "Project name {} is used by several projects: {}",
+                project_name,
+                itertools::join(dirs.iter().map(|dir| dir.display()), ", ")
+            ));
+        }
+
         Ok(Self {
             root_project_dir,
             projects,
